@@ -265,6 +265,13 @@ struct TreeGen {
     flat_ok: bool,
     pool: Vec<Vec<Vec<u8>>>,
     n_files: usize,
+    /// every file starts with an origin in effect (the old behaviour); otherwise the root and
+    /// intermediate files may have NO origin at their `$INCLUDE` lines
+    force_origin: bool,
+    /// the origin in effect in the *flattened* text (differs from the simulated one only while
+    /// the simulated origin is "none", which a text cannot restore)
+    flat_origin: Option<Vec<Vec<u8>>>,
+    n_probe: usize,
 }
 
 fn render_abs(name: &[Vec<u8>]) -> Vec<u8> {
@@ -287,24 +294,95 @@ fn render_abs(name: &[Vec<u8>]) -> Vec<u8> {
 }
 
 impl TreeGen {
+    /// make the flattened text's origin equal to the simulated one (possible iff it is set)
+    fn sync_flat(&mut self, ctx: &Ctx, flat: &mut Vec<u8>) {
+        if let Some(o) = &ctx.origin {
+            if self.flat_origin.as_ref() != Some(o) {
+                flat.extend_from_slice(b"$ORIGIN ");
+                flat.extend(render_abs(o));
+                flat.push(b'\n');
+                self.flat_origin = Some(o.clone());
+            }
+        }
+    }
+
+    /// a line whose meaning depends on the context the includer is left with: a relative owner,
+    /// `@`, an omitted owner / TTL / class.  Where the context lacks what the line needs the
+    /// real parser must report an error (e.g. PqdnWhenOriginNotSet when no origin is in effect).
+    fn probe(&mut self, rng: &mut Rng, ctx: &mut Ctx, text: &mut Vec<u8>, flat: &mut Vec<u8>) {
+        self.n_probe += 1;
+        let k = self.n_probe;
+        let kind = rng.below(6);
+        let line: Vec<u8> = match kind {
+            0 | 1 => format!("p{} 7 IN TXT rel{}\n", k, k).into_bytes(),
+            2 => format!("@ 7 IN TXT at{}\n", k).into_bytes(),
+            3 => format!("\tTXT cont{}\n", k).into_bytes(),
+            4 => format!("q{}.abs.test. TXT nottl{}\n", k, k).into_bytes(),
+            _ => format!("\t8 TXT ownercls{}\n", k).into_bytes(),
+        };
+        if kind <= 2 && ctx.origin.is_none() && self.flat_origin.is_some() {
+            // the flattened text cannot express "no origin" once an included file has set one
+            self.flat_ok = false;
+        }
+        self.sync_flat(ctx, flat);
+        text.extend_from_slice(&line);
+        flat.extend_from_slice(&line);
+        // simulate (an erroneous line ends the parse; what follows it is never looked at)
+        match kind {
+            0 | 1 => {
+                if let Some(o) = &ctx.origin {
+                    let mut n = vec![format!("p{}", k).into_bytes()];
+                    n.extend(o.iter().cloned());
+                    ctx.prev_owner = Some(n);
+                    ctx.prev_ttl = Some(7);
+                    ctx.prev_class = Some(1);
+                }
+            }
+            2 => {
+                if let Some(o) = &ctx.origin {
+                    ctx.prev_owner = Some(o.clone());
+                    ctx.prev_ttl = Some(7);
+                    ctx.prev_class = Some(1);
+                }
+            }
+            3 => {
+                if let (Some(_), Some(t), Some(_)) = (&ctx.prev_owner, ctx.default_ttl.or(ctx.prev_ttl), ctx.prev_class) {
+                    ctx.prev_ttl = Some(t);
+                }
+            }
+            4 => {
+                if let (Some(t), Some(_)) = (ctx.default_ttl.or(ctx.prev_ttl), ctx.prev_class) {
+                    ctx.prev_owner = Some(vec![format!("q{}", k).into_bytes(), b"abs".to_vec(), b"test".to_vec()]);
+                    ctx.prev_ttl = Some(t);
+                }
+            }
+            _ => {
+                if ctx.prev_owner.is_some() && ctx.prev_class.is_some() {
+                    ctx.prev_ttl = Some(8);
+                }
+            }
+        }
+    }
+
     /// generate file `idx` under the simulated context `ctx`; returns (text, flattened text).
     /// `ctx` is updated to the context after the file (origin restored by the caller).
     fn gen_file(&mut self, rng: &mut Rng, idx: usize, ctx: &mut Ctx, depth: usize, class: u16) -> (Vec<u8>, Vec<u8>) {
         let mut text: Vec<u8> = Vec::new();
         let mut flat: Vec<u8> = Vec::new();
         let n = rng.range(1, 8);
-        if ctx.origin.is_none() {
+        if ctx.origin.is_none() && (self.force_origin || (idx > 0 && rng.chance(1, 3))) {
             let o = vec![b"example".to_vec(), b"test".to_vec()];
             let line = b"$ORIGIN example.test.\n".to_vec();
             text.extend_from_slice(&line);
             flat.extend_from_slice(&line);
-            ctx.origin = Some(o);
+            ctx.origin = Some(o.clone());
+            self.flat_origin = Some(o);
         }
         for _ in 0..n {
-            match rng.below(10) {
+            match rng.below(11) {
                 0 => {
-                    let mut o = ctx.origin.clone().unwrap();
-                    if rng.chance(1, 2) || o.len() > 4 {
+                    let mut o = ctx.origin.clone().unwrap_or_default();
+                    if rng.chance(1, 2) || o.len() > 4 || o.is_empty() {
                         o = vec![rng.pick(&[&b"zone"[..], b"x", b"example"]).to_vec(), b"test".to_vec()];
                     } else {
                         o.insert(0, rng.pick(&[&b"s1"[..], b"s2", b"deep"]).to_vec());
@@ -314,7 +392,8 @@ impl TreeGen {
                     line.push(b'\n');
                     text.extend_from_slice(&line);
                     flat.extend_from_slice(&line);
-                    ctx.origin = Some(o);
+                    ctx.origin = Some(o.clone());
+                    self.flat_origin = Some(o);
                 }
                 1 => {
                     let v = *rng.pick(&[60u32, 300, 7200]);
@@ -344,11 +423,10 @@ impl TreeGen {
                     text.extend_from_slice(&line);
                     // semantics being simulated: child context = includer's, origin overridden
                     let saved_origin = ctx.origin.clone();
+                    self.sync_flat(ctx, &mut flat);
                     if let Some(o) = &inc_origin {
                         ctx.origin = Some(o.clone());
-                        flat.extend_from_slice(b"$ORIGIN ");
-                        flat.extend(render_abs(o));
-                        flat.push(b'\n');
+                        self.sync_flat(ctx, &mut flat);
                     }
                     if self.files[j].is_none() {
                         let (t, f) = self.gen_file(rng, j, ctx, depth + 1, class);
@@ -364,13 +442,20 @@ impl TreeGen {
                         ctx.prev_class = None;
                         ctx.default_ttl = None;
                     }
-                    // the includer's origin is restored
-                    ctx.origin = saved_origin.clone();
-                    flat.extend_from_slice(b"$ORIGIN ");
-                    flat.extend(render_abs(&saved_origin.unwrap()));
-                    flat.push(b'\n');
+                    // the includer's origin is restored — also when it is "none"
+                    ctx.origin = saved_origin;
+                    self.sync_flat(ctx, &mut flat);
+                    // lines that show what context the includer was left with
+                    if rng.chance(2, 3) {
+                        self.probe(rng, ctx, &mut text, &mut flat);
+                        if rng.chance(1, 3) {
+                            self.probe(rng, ctx, &mut text, &mut flat);
+                        }
+                    }
                 }
+                5 => self.probe(rng, ctx, &mut text, &mut flat),
                 _ => {
+                    self.sync_flat(ctx, &mut flat);
                     let mut p = Printer::new(rng);
                     p.allow_paren = rng.chance(1, 4);
                     let r = gen_rr(rng, ctx, &mut self.pool, class);
@@ -397,7 +482,15 @@ fn emit(em: &mut Emitter, case: &str) {
 
 fn gen_tree(rng: &mut Rng, em: &mut Emitter) {
     let n_files = if rng.chance(1, 8) { 1 } else { rng.range(2, 6) };
-    let mut g = TreeGen { files: vec![None; FILE_NAMES.len()], flat_ok: true, pool: Vec::new(), n_files };
+    let mut g = TreeGen {
+        files: vec![None; FILE_NAMES.len()],
+        flat_ok: true,
+        pool: Vec::new(),
+        n_files,
+        force_origin: rng.chance(2, 5),
+        flat_origin: None,
+        n_probe: 0,
+    };
     let mut ctx = Ctx::new();
     let (main, flat) = g.gen_file(rng, 0, &mut ctx, 0, 1);
     g.files[0] = Some(main);
@@ -448,6 +541,32 @@ fn gen_special(rng: &mut Rng, em: &mut Emitter, thorough: bool) {
         ("main.zone", "$ORIGIN p.\n$TTL 100\nfirst IN A 1.1.1.1\n$INCLUDE i.zone q.\nafter A 2.2.2.2\n\tA 2.2.2.3\n"),
         ("i.zone", "in1 A 3.3.3.3\n$ORIGIN r.\n$TTL 200\nin2 CH TXT x\n"),
     ]), h("main.zone")));
+    // the includer has NO origin at its $INCLUDE line: "restored" means none again, so a relative
+    // name or `@` after the include is an error — whether the included file got its origin from
+    // the directive, from a `$ORIGIN` of its own, or from a file nested two levels down
+    for after in ["rel 5 IN A 2.2.2.2\n", "@ 5 IN A 2.2.2.2\n", "abs.t. 5 IN NS rel\n", "abs2.t. 5 IN A 2.2.2.2\n$INCLUDE i.zone\n"] {
+        for (inc, ifile, nfile) in [
+            ("$INCLUDE i.zone o.\n", "i 6 IN A 3.3.3.3\n", ""),
+            ("$INCLUDE i.zone\n", "$ORIGIN o.\ni 6 IN A 3.3.3.3\n", ""),
+            ("$INCLUDE i.zone\n", "i.o. 6 IN A 3.3.3.3\n$INCLUDE n.zone\nj.o. A 3.3.3.4\n", "$ORIGIN deep.o.\nn 6 IN A 4.4.4.4\n"),
+            ("$INCLUDE i.zone o.\n", "$INCLUDE n.zone p.\ni 6 IN A 3.3.3.3\n", "n 6 IN A 4.4.4.4\n$ORIGIN q.\n@ A 4.4.4.5\n"),
+        ] {
+            for pre in ["a.t. 5 IN A 1.1.1.1\n", "$ORIGIN t.\na 5 IN A 1.1.1.1\n", ""] {
+                let m = format!("{}{}{}", pre, inc, after);
+                emit(em, &format!("inc 3 {} {}", f(&[("main.zone", &m), ("i.zone", ifile), ("n.zone", nfile)]), h("main.zone")));
+            }
+        }
+    }
+    // the other context fields DO flow back from the included file: previous owner, TTL, class,
+    // default TTL (observable through omitted fields right after the include)
+    for after in ["\tTXT x\n", "\t9 TXT x\n", "w.t. TXT x\n", "w.t. CH TXT x\n", "w.t. 9 TXT x\n"] {
+        for ifile in ["i.o. 6 CH TXT y\n", "$TTL 77\ni.o. HS TXT y\n", "$TTL 77\n", "", "i.o. 6 IN TXT y\n$TTL 5\nj.o. CH TXT z\n"] {
+            for pre in ["a.t. 5 IN A 1.1.1.1\n", "$TTL 300\na.t. IN A 1.1.1.1\n", ""] {
+                let m = format!("{}$INCLUDE i.zone\n{}", pre, after);
+                emit(em, &format!("inc 3 {} {}", f(&[("main.zone", &m), ("i.zone", ifile)]), h("main.zone")));
+            }
+        }
+    }
     // relative paths: main in a sub-directory; sibling with the same name in the root
     emit(em, &format!("inc 3 {} {}", f(&[
         ("d/main.zone", "$ORIGIN t.\n$INCLUDE b.zone\n$INCLUDE ../b.zone\n$INCLUDE e/b.zone\n"),
